@@ -238,6 +238,11 @@ static void project_container(W &w, sqlite3 *db, long long id, bool isblock, con
     sqlite3_stmt *st = nullptr;
     w.obj();
     w.kvu("code", orig); w.kvu("norm", norm); w.kv("id", id);
+    if (sqlite3_prepare_v2(db, "select next_loop_num from container where id = ?", -1, &st, nullptr) == SQLITE_OK) {
+        sqlite3_bind_int64(st, 1, id);
+        if (sqlite3_step(st) == SQLITE_ROW) w.kv("nl", sqlite3_column_int64(st, 0));
+        sqlite3_finalize(st);
+    }
     // frames
     w.key("frames"); w.arr();
     if (sqlite3_prepare_v2(db, "select container_id, name, name_orig from save_frame where parent_id = ? order by container_id", -1, &st, nullptr) == SQLITE_OK) {
